@@ -77,9 +77,16 @@ Definition yielded (w : ws) (k : key) : bool :=
 Fixpoint memZ (x : Z) (l : list Z) : bool :=
   match l with [] => false | y :: l' => (x =? y) || memZ x l' end.
 
-(* ---- the first loop (cleanup): every yielded symbolic link is removed -------------- *)
-Definition prepass_step (w : ws) (k : key) : ws :=
-  if yielded w k && is_link w k then unlink k w else w.
+(* ---- the first loop (cleanup): the yielded symbolic links are removed ---------------
+   keep = false : every one of them (pinned commit)
+   keep = true  : repair C20-8 - a link whose target cannot be loaded (class deleted from the code, module not
+                  importable) is kept: that directory will not be repaired by the second loop, and the link may be
+                  the only way to reach it                                                                     *)
+Definition loadable (w : ws) (k : key) : bool :=
+  match resolve w k with Some (_, d) => match d_recomp d with Some _ => true | None => false end | None => false end.
+Definition prepass_step_gen (keep : bool) (w : ws) (k : key) : ws :=
+  if yielded w k && is_link w k && (negb keep || loadable w k) then unlink k w else w.
+Definition prepass_step := prepass_step_gen true.
 
 (* ---- repair of defect C20-1: the result files of a job are named after the task
    (<name>.done ...); when the task class itself was renamed they are made visible
@@ -126,13 +133,14 @@ Definition main_step (rep fx cleanup : bool) (w : ws) (k : key) : ws :=
    system: it is an input (o1 for the first loop, o2 for the second), and entries are
    examined lazily, in the state the previous iterations left.                          *)
 Definition prepass (w : ws) (o : list key) : ws := fold_left prepass_step o w.
+Definition prepass0 (w : ws) (o : list key) : ws := fold_left (prepass_step_gen false) o w.   (* pinned commit *)
 Definition mainpass (rep fx cleanup : bool) (w : ws) (o : list key) : ws :=
   fold_left (main_step rep fx cleanup) o w.
 
 (* fix_deprecated(workpath, fix, cleanup).  Pinned commit: the first loop runs whenever
    cleanup is set, even without fix (defect C20-2); repaired: only when fixing.          *)
 Definition run (rep fx cleanup : bool) (o1 o2 : list key) (w : ws) : ws :=
-  let w1 := if cleanup && (negb rep || fx) then prepass w o1 else w in
+  let w1 := if cleanup && (negb rep || fx) then (if rep then prepass w o1 else prepass0 w o1) else w in
   mainpass rep fx cleanup w1 o2.
 
 Definition fix_ws := run true.              (* the repaired command *)
